@@ -32,6 +32,7 @@ struct Th {
   uintptr_t last_addr;         // address of the pending operation (set by pre)
   uintptr_t recent[64];        // recently read locations: a spin loop re-reads few locations, a scan does not
   int recent_pos;
+  int plain_hold;              // harness bookkeeping section: no plain-access decision points for this thread
 };
 struct Dev { int32_t tid; int32_t next; uint64_t dp; };
 struct FaultRec { int32_t tid; int32_t kind; uint64_t n; int64_t param; };
@@ -112,14 +113,16 @@ struct World {
 extern World* W;
 extern int myhost;
 extern thread_local int me;
+extern thread_local bool have_baton;
 
-inline bool on() { return W && W->active && me >= 0; }
+inline bool on() { return W && W->active && me >= 0 && have_baton; }
 
 // decision point before an operation of `kind` on `addr`
 void pre(int kind, const void* addr);
 // bookkeeping after the operation: did it change shared state?
 void post(bool changed);
 void wrote();
+void plain_access(const void* a, bool wr);
 void block(int st, uintptr_t obj);
 void wake_where(int st, uintptr_t obj, bool samehost);
 uint64_t rnd_sched();
